@@ -35,7 +35,8 @@ break one semantic property of the code base, in a way the existing test suite d
 Your scratch git worktree of the repository is {wt} (detached at the current HEAD). Work ONLY there and in
 /tmp/out-{pid}/. Never read or write /repo or /verif. There is no network; use `cargo ... --offline`
 (CARGO_NET_OFFLINE=true). Put `timeout 900` in front of every cargo/test command: some inputs can make the pipeline
-loop forever.
+loop forever. NEVER use `git stash` (the stash is shared with other people's worktrees of this repository): to set a
+change aside use `git diff > /tmp/out-{pid}/<name>.diff`, `git checkout -- .`, and later `git apply`.
 
 THE PROPERTY (id {pid}: {p.get('title','')})
 
